@@ -5,6 +5,8 @@
 package bloom
 
 import (
+	"bytes"
+
 	"github.com/gcash/bchd/blockchain"
 	"github.com/gcash/bchd/chaincfg/chainhash"
 	"github.com/gcash/bchd/wire"
@@ -80,6 +82,21 @@ func (m *merkleBlock) traverseAndBuild(height, pos uint32) {
 type blockFilterer struct {
 	filter         *Filter
 	matchedIndices map[int]bool
+
+	// version counts how many times the filter's bit array has changed
+	// during the scan and checkedAt remembers, per transaction index, the
+	// version the transaction was last checked against.
+	version   int
+	checkedAt map[int]int
+}
+
+// filterBits returns the filter's current bit array (nil when unloaded).
+func (bf *blockFilterer) filterBits() []byte {
+	msg := bf.filter.MsgFilterLoad()
+	if msg == nil {
+		return nil
+	}
+	return msg.Filter
 }
 
 type txWithIndex struct {
@@ -91,7 +108,21 @@ type txWithIndex struct {
 // inputs to double check transactions that are in the block but were already processed.
 // This is necessary if the block is not sorted in topological order.
 func (bf *blockFilterer) checkFilterTx(tx *bchutil.Tx, txIndex int, inputs map[chainhash.Hash][]*txWithIndex) {
-	if bf.filter.MatchTxAndUpdate(tx) {
+	// Checking a transaction again while the filter is exactly as it was at
+	// its previous check can neither match nor insert anything new, and the
+	// same holds for everything that check recursed into.  Skipping it keeps
+	// the scan polynomial: without this, a chain of k transactions that each
+	// spend two outputs of their parent costs 2^k filter evaluations.
+	if v, ok := bf.checkedAt[txIndex]; ok && v == bf.version {
+		return
+	}
+	bf.checkedAt[txIndex] = bf.version
+	before := append([]byte(nil), bf.filterBits()...)
+	matched := bf.filter.MatchTxAndUpdate(tx)
+	if !bytes.Equal(before, bf.filterBits()) {
+		bf.version++
+	}
+	if matched {
 		bf.matchedIndices[txIndex] = true
 		if dependentTxs, ok := inputs[tx.MsgTx().TxHash()]; ok {
 			for _, dependentTx := range dependentTxs {
@@ -104,7 +135,7 @@ func (bf *blockFilterer) checkFilterTx(tx *bchutil.Tx, txIndex int, inputs map[c
 // GetMatchedIndices returns the index of the transactions that match the filter.
 // This works even with CTOR ordering.
 func GetMatchedIndices(block *bchutil.Block, filter *Filter) map[int]bool {
-	bf := blockFilterer{matchedIndices: make(map[int]bool), filter: filter}
+	bf := blockFilterer{matchedIndices: make(map[int]bool), filter: filter, checkedAt: make(map[int]int)}
 	inputs := make(map[chainhash.Hash][]*txWithIndex)
 	for txIndex, tx := range block.Transactions() {
 		for _, in := range tx.MsgTx().TxIn {
